@@ -167,7 +167,7 @@ pub fn literal_docs() -> Vec<String> {
     "1.8446744073709552e19", "-2.5e30", "1e300", "1.7976931348623157e308", "5e-324", "123456789.125", "0x1p3", "0x1.8p-3", "-0x1p4", "\"\"", "\"a\"", "\"\\\"\\\\\"", "\"\\u00e9\\n\"",
     "\"\\ud83d\\ude00\"", "'a'", "''", "h'00ff'", "h''", "b64'AQID'", "'\\''",
   ];
-  let ctxs = ["r = @", "r = @ / int", "r = [@]", "r = [@, @]", "r = {@ => int}", "r = {a: @}", "r = 0..@", "r = @...@", "r = int .lt @", "r = tstr .default @", "r = m<@>\nm<t> = t", "r = [2*3 @]", "r = #6.1(@)", "r = (@)", "r = {? @ ^ => @}"];
+  let ctxs = ["r = {@: int}", "r = @", "r = @ / int", "r = [@]", "r = [@, @]", "r = {@ => int}", "r = {a: @}", "r = 0..@", "r = @...@", "r = int .lt @", "r = tstr .default @", "r = m<@>\nm<t> = t", "r = [2*3 @]", "r = #6.1(@)", "r = (@)", "r = {? @ ^ => @}"];
   let mut out = vec![];
   for l in lits {
     for c in ctxs {
